@@ -69,7 +69,7 @@ def classify(res, gen_lines):
                 mo = OBL_RE.search(text)
                 # a multi-line clause: look down to the line that ends the clause (first following line carrying an OBL tag),
                 # but only when the span line itself has none and is a continuation (no trailing comma)
-                if not mo and ("failed this" in label or "failed pre" in label or prim):
+                if not mo and ("failed this" in label or "failed pre" in label):
                     k = ln
                     while k < len(gen_lines) and k < ln + 8 and not gen_lines[k - 1].rstrip().endswith(",") and "OBL:" not in gen_lines[k - 1]:
                         k += 1
